@@ -128,6 +128,7 @@ def run(ctx: Ctx) -> Result:
     sched_cases(ctx, res, rng)
     _redis.run_seq(ctx, res, "c12r", {"C12"}, "ttl", 150, 3000, rng)
     _rabbit.run_seq(ctx, res, "c12q", {"C12"}, "ttl", 120, 2500, rng)
+    _redis.consume_expired_run(ctx, res)
     return res
 
 
